@@ -297,9 +297,9 @@ class RefServer:
             self._zombie()
             return
         if st["zombie"] and t != st["t"]:
-            # toggle phase unknowable after a disturbance: follow the server if it acknowledges
+            # toggle phase unknowable after a disturbance: follow the server if it acknowledges; if it aborts it may
+            # have dropped the transfer or kept it (both allowed): the transfer stays a zombie
             if ab:
-                self.st = None
                 return
             st["t"] = t
         if t != st["t"]:
